@@ -74,7 +74,9 @@ theorem dec_nopanic (fuel : Nat) :
         split
         · split
           · simp
-          · exact ihS _ _ _ s
+          · split
+            · simp
+            · exact ihS _ _ _ s
         · split
           · split
             · simp
